@@ -181,6 +181,23 @@ func fixedGraphs() []*ggraph {
 		}
 		out = append(out, finish(&ggraph{mods: mods, shape: v.name, rootType: "module", subType: "module"}))
 	}
+	// 15-17. export * chains ending in a CommonJS leaf, starting at the ENTRY: the entry's
+	// exports (importer / requirer / global name) include the leaf's names
+	for _, levels := range []int{0, 1, 2} {
+		mods := []*gmod{esm(0, "e.mjs")}
+		mods[0].locals = []localExport{v2("own")}
+		for i := 1; i <= levels; i++ {
+			m := esm(i, fmt.Sprintf("mid%d.mjs", i))
+			m.locals = []localExport{{fmt.Sprintf("fromMid%d", i), "var"}, {"y", "function"}}
+			mods = append(mods, m)
+		}
+		leaf := &gmod{id: levels + 1, kind: modCJS, path: "leaf.cjs", locals: []localExport{v2("fromLeaf"), v2("answer"), v2("x")}}
+		mods = append(mods, leaf)
+		for i := 0; i <= levels; i++ {
+			mods[i].stars = []int{i + 1}
+		}
+		out = append(out, finish(&ggraph{mods: mods, shape: fmt.Sprintf("fixed-starchain-%d", levels), rootType: "module", subType: "module"}))
+	}
 	return out
 }
 
